@@ -208,12 +208,12 @@ def run_check(engine, tier, extra_cfg=None):
         if entry is not None:
             known_hits.append((entry, len(lst)))
             continue
-        if len(new_violations) >= 5:
+        if len(new_violations) >= getattr(engine, "max_minimised", 5):
             new_violations.append((want, None, len(lst)))
             continue
         task, res, v = min(lst, key=lambda t: (len(canon(t[1].get("case"))), t[0]["i"]))
         case = res["case"]
-        mcase, used = minimise(engine, case, want, engine.timeout_s * 2, cap=cfg.get("min_cap", 300))
+        mcase, used = minimise(engine, case, want, engine.timeout_s * 2, cap=cfg.get("min_cap", getattr(engine, "min_cap", 300)))
         mres = run_isolated(engine.run_case, mcase, engine.timeout_s * 2)
         if not _has(mres, want):
             mcase, mres = case, run_isolated(engine.run_case, case, engine.timeout_s * 2)
